@@ -9,6 +9,8 @@ package main
 
 import (
 	"fmt"
+	"regexp"
+	"runtime"
 	"math/big"
 	"strconv"
 	"strings"
@@ -100,10 +102,35 @@ func runT[T constraints.Float](op, as, bs string, scale float64) string {
 	return fmt.Sprintf("R=%s mut=%s empty=%s", strings.ReplaceAll(show(r), " ", "_"), hx.B2i(!same(a, a0) || !same(b, b0)), hx.B2i(r.Empty()))
 }
 
+// panicSite names where a panic was raised inside the library: the two innermost frames of package poly, as
+// "receiver.method<receiver.method" (type parameters and the package path dropped). It identifies a crash by its call site.
+func panicSite() string {
+	pcs := make([]uintptr, 64)
+	n := runtime.Callers(3, pcs)
+	frames := runtime.CallersFrames(pcs[:n])
+	var names []string
+	for {
+		fr, more := frames.Next()
+		if i := strings.Index(fr.Function, "/geom/poly."); i >= 0 && len(names) < 2 {
+			nm := fr.Function[i+len("/geom/poly."):]
+			nm = regexp.MustCompile(`\[[^\]]*\]`).ReplaceAllString(nm, "")
+			nm = strings.NewReplacer("(", "", ")", "", "*", "").Replace(nm)
+			names = append(names, nm)
+		}
+		if !more {
+			break
+		}
+	}
+	if len(names) == 0 {
+		return "P"
+	}
+	return "P@" + strings.Join(names, "<")
+}
+
 func run(c string) (obs string) {
 	defer func() {
 		if e := recover(); e != nil {
-			obs = "P"
+			obs = panicSite()
 		}
 	}()
 	i := strings.Index(c, " ")
